@@ -97,6 +97,8 @@ impl<T> Entry<T> {
             // leave the last node not removed also persist the queue for a while
             // that prevent frequent queue create and destroy
             if !next.is_null() {
+                #[cfg(may_verif)]
+                crate::verif::point(crate::verif::site::LIST_REMOVE_BEFORE_UNLINK, 0);
                 // clear the link bit
                 node.refs &= REF_COUNT_MASK;
 
@@ -104,6 +106,8 @@ impl<T> Entry<T> {
                 (*next).prev = prev;
                 prev.next.store(next, Ordering::Release);
 
+                #[cfg(may_verif)]
+                crate::verif::point(crate::verif::site::LIST_REMOVE_UNLINKED, 0);
                 let ret = node.value.take();
 
                 // since self is not dropped, below is always false
@@ -169,8 +173,12 @@ impl<T> Queue<T> {
         unsafe {
             let node = Node::new(Some(t));
             let prev = self.head.swap(node, Ordering::AcqRel);
+            #[cfg(may_verif)]
+            crate::verif::point(crate::verif::site::LIST_PUSH_SWAPPED, self as *const _ as usize);
             (*node).prev = prev;
             (*prev).next.store(node, Ordering::Release);
+            #[cfg(may_verif)]
+            crate::verif::point(crate::verif::site::LIST_PUSH_LINKED, self as *const _ as usize);
             let tail = *self.tail.get();
             let is_head = std::ptr::eq(tail, prev);
             (Entry(ptr::NonNull::new_unchecked(node)), is_head)
@@ -237,6 +245,8 @@ impl<T> Queue<T> {
             assert!((*tail).value.is_none());
             assert!((*next).value.is_some());
 
+            #[cfg(may_verif)]
+            crate::verif::point(crate::verif::site::LIST_POPIF_PEEKED, self as *const _ as usize);
             let v = (*next).value.as_ref().unwrap();
             if !f(v) {
                 // no pop
@@ -278,6 +288,8 @@ impl<T> Queue<T> {
             assert!((*tail).refs & REF_COUNT_MASK != 0);
             (*tail).refs &= REF_COUNT_MASK;
 
+            #[cfg(may_verif)]
+            crate::verif::point(crate::verif::site::LIST_POP_WAIT_NEXT, self as *const _ as usize);
             // spin until tail next become non-null
             let mut next;
             let backoff = Backoff::new();
@@ -288,6 +300,8 @@ impl<T> Queue<T> {
                 }
                 backoff.snooze();
             }
+            #[cfg(may_verif)]
+            crate::verif::point(crate::verif::site::LIST_POP_NEXT, self as *const _ as usize);
             (*next).prev = ptr::null_mut();
             // move the tail to next
             *self.tail.get() = next;
